@@ -12,7 +12,7 @@
    Histories are arbitrary operation lists: [run T I D F G M ops st]. *)
 From Coq Require Import List Bool NArith Permutation.
 Import ListNotations.
-From Verif Require Import PsbtModel PsbtLemmas PsbtReach PsbtAtomic PsbtIdem PsbtIdemOld PsbtValid PsbtOrder PsbtUpdate PsbtExamples.
+From Verif Require Import PsbtModel PsbtLemmas PsbtReach PsbtAtomic PsbtIdem PsbtIdemOld PsbtValid PsbtOrder PsbtUpdate PsbtPkh PsbtExamples.
 
 (* ---- never alters inputs that are already final *)
 Theorem C14_final_monotone : forall T I D F G M (ops : list op) (st : psbt) (i : nat) (a : pinput),
@@ -297,3 +297,34 @@ Example C14_update_example :
     = (mkPsbt 1%N 1 [mkIn (Some (mkNw 9%N true (Some (mkTxOut 2%N 7%N)))) (Some (mkTxOut 1%N 7%N))
                        [] None None None [] None None [] [] [] [] None [] [] [] None None [] []], RUpd u_utxocheck).
 Proof. exact update_example. Qed.
+
+(* ---- key-origin records are optional (BIP174/371): the key behind a raw key hash is found in
+   bip32_derivation or, failing that, in the partial signature that carries it
+   (Placeholder::PubkeyHash completion; tabulated against the compiled code on every run) *)
+Theorem C14_resolve_pkh_from_sig : forall pkh_of a h k s,
+  lookup k (i_psigs a) = Some s -> pkh_of k = h ->
+  exists k', resolve_pkh pkh_of a h = Some k' /\ pkh_of k' = h.
+Proof. exact resolve_pkh_from_sig. Qed.
+Print Assumptions C14_resolve_pkh_from_sig.
+
+Theorem C14_resolve_pkh_tap_from_sig : forall pkh_of xonly_of a h kl s,
+  lookup kl (i_tapsigs a) = Some s -> pkh_of (xonly_of kl) = h ->
+  exists k', resolve_pkh_tap pkh_of xonly_of a h = Some k' /\ pkh_of k' = h.
+Proof. exact resolve_pkh_tap_from_sig. Qed.
+Print Assumptions C14_resolve_pkh_tap_from_sig.
+
+Theorem C14_resolve_pkh_deriv_irrelevant : forall pkh_of,
+  (forall k1 k2, pkh_of k1 = pkh_of k2 -> k1 = k2) ->
+  forall a h k s m, lookup k (i_psigs a) = Some s -> pkh_of k = h ->
+    resolve_pkh pkh_of (set_bip32 a m) h = resolve_pkh pkh_of a h.
+Proof. exact resolve_pkh_deriv_irrelevant. Qed.
+Print Assumptions C14_resolve_pkh_deriv_irrelevant.
+
+Example C14_resolve_pkh_example :
+  let pkh_of := fun k => (k + 100)%N in
+  let a := mkIn None None [(5%N, 50%N)] None None None [] None None [] [] [] [] None [] [] [] None None [] [] in
+  resolve_pkh pkh_of a 105%N = Some 5%N /\
+  resolve_pkh pkh_of (set_bip32 a [(5%N, 9%N)]) 105%N = Some 5%N /\
+  resolve_pkh pkh_of (set_bip32 a [(6%N, 9%N)]) 105%N = Some 5%N /\
+  resolve_pkh pkh_of a 106%N = None.
+Proof. exact resolve_pkh_example. Qed.
